@@ -7,7 +7,7 @@ from ..analysis import strip_through
 from ..analysis import (Branches, CallGraph, Origins, cfg_cycles, edge_dominates, fmt_terms, reach_avoiding,
                         term_mentions)
 from ..decision import Undecided
-from ..leaf import kind_walker, ok_payloads, results_by_kind
+from ..leaf import expand_defaults, kind_walker, ok_payloads, results_by_kind
 from ..tmatch import ANY, Agg, Call, Each, Or_, m, ms
 from .c06 import RESULT, check_result_types
 
@@ -345,6 +345,23 @@ def fn_not_null(ctx, lib, nm, b):
         ve = br.variant_edges(nx[0][1]["t"])
         done = ve is not None and edge_dominates(b, (nx[0][1]["t"], ve["edges"].get("None", ve["otherwise"])), nul[0][0])
         ok = good and done
+    if not ok and not nx:
+        # args.iter().find(|a| !a.is_null()) — the first item satisfying the predicate, by definition — or null for None
+        allt = set().union(*[set(t) for _, t in oks]) if oks else set()
+        allt = {strip_through(x) for x in expand_defaults(allt)}
+        finds = {t for t in allt if t[0] == "call" and t[1] == "std::iter::Iterator::find"}
+        good = len(finds) == 1 and all(t in finds or m(t, Agg(V + "::Null")) for t in allt) and any(m(t, Agg(V + "::Null")) for t in allt)
+        if good:
+            f = next(iter(finds))
+            good = set(f[2][0]) == {("iter", ARGS)} and len(f[2][1]) == 1
+            clo = next(iter(f[2][1]))
+            cb = lib.fn(clo[1]) if good and clo[0] == "closure" else None
+            good = cb is not None
+            if good:
+                r = Origins(cb, lib).of_local(0)
+                good = bool(r) and all(x[0] == "un" and x[1] == "Not" and x[2][0] == "call" and x[2][1] == "variable::Variable::is_null" and
+                                       set(x[2][2][0]) == {("param", 2)} for x in r)
+        ok = good
     C(ctx, nm, "value", ok, "the first argument (in order) that is not null, or null when all are", b)
 
 
@@ -389,30 +406,33 @@ def fn_to_number(ctx, lib, nm, b):
     pj = Call("variable::Variable::from_json", Each(Or_(("field", arg(0), "String.0"), view("string", arg(0)))))
     nullp = Agg(V + "::Null")
     ok = True
+    detail = []
+
+    def parsed_is_number(v):
+        # the kind test on the parsed value (not on the argument): decided per scenario
+        def h(t, argvals):
+            if t[1] == "variable::Variable::is_number" and term_mentions(t[2], lambda x: x[0] == "call" and x[1] == "variable::Variable::from_json"):
+                return v
+            return None
+        return h
     for k0 in ("Null", "String", "Bool", "Number", "Array", "Object"):
-        try:
-            res = ok_payloads(results_by_kind(b, lib, {arg(0): k0}))
-        except Undecided:
-            res = set()
-        if k0 == "Number":
-            ok = ok and res == {arg(0)}
-        elif k0 == "String":
-            ok = ok and any(m(t, pj) for t in res) and all(m(t, pj) or m(t, nullp) for t in res)
-        else:
-            ok = ok and bool(res) and all(m(t, nullp) for t in res)
-    # the parsed value is returned only under is_number(parsed)
-    parsed = [(blk, t) for blk, t in oks if any(m(x, pj) for x in t)]
-    ok = ok and bool(parsed)
-    for pblk, _ in parsed:
-        guard = False
-        for sb, sw in br.switches():
-            be = br.bool_edges(sb)
-            if be:
-                for c in br.cond(sb):
-                    if m(c, Call("variable::Variable::is_number", Each(Call("variable::Variable::from_json", ANY)))) and edge_dominates(b, (sb, be[0]), pblk):
-                        guard = True
-        ok = ok and guard
-    C(ctx, nm, "value", ok, "a number is returned as is; a string is parsed as JSON and kept only if it is a number; everything else is null", b)
+        for isnum in ((0, 1) if k0 == "String" else (None,)):
+            try:
+                res = ok_payloads(results_by_kind(b, lib, {arg(0): k0}, extra_call=parsed_is_number(isnum) if isnum is not None else None))
+                res = {strip_through(x) for x in expand_defaults(res)}
+            except Undecided:
+                res = set()
+            if k0 == "Number":
+                good = res == {arg(0)}
+            elif k0 == "String" and isnum == 1:
+                good = any(m(t, pj) for t in res) and all(m(t, pj) or m(t, nullp) for t in res)
+            else:
+                # any other kind, or a string whose parsed value is not a number
+                good = bool(res) and all(m(t, nullp) for t in res)
+            if not good:
+                detail.append(f"{k0}{'' if isnum is None else '/parsed-is-number=' + str(isnum)}: {fmt_terms(res)[:100]}")
+            ok = ok and good
+    C(ctx, nm, "value", ok, "a number is returned as is; a string is parsed as JSON and kept only if it is a number; everything else is null" + (f" — {detail}" if detail else ""), b)
 
 
 def fn_type(ctx, lib, nm, b):
